@@ -650,6 +650,12 @@ pub enum ClaimSpec {
   /// `CustomClaim::try_from((&str, &AtomicU64))`: the claim value is a REFERENCE to a counter holding n when the claim is
   /// set; the harness changes the counter right afterwards (set_claim takes a snapshot - what is set is what is built)
   SharedCounter(String, u64),
+  /// a caller-defined claim type registered under `key` whose `Serialize` writes the given JSON value VERBATIM: an object
+  /// with several members (one of them perhaps named like the key), a member under another name, no member at all, a scalar
+  Shaped(String, Value),
+  /// a caller-defined claim registered under `key` whose `Serialize` panics part-way (an application bug): the call that is
+  /// given it unwinds; the caller catches that and goes on using the object
+  Panicking(String),
 }
 
 pub const DEFAULT_KEYS: [&str; 7] = ["iss", "sub", "aud", "jti", "exp", "nbf", "iat"];
@@ -837,11 +843,20 @@ impl ClaimSpec {
       ClaimSpec::Exp(_) | ClaimSpec::ExpOwned(_) => "exp",
       ClaimSpec::Nbf(_) | ClaimSpec::NbfOwned(_) => "nbf",
       ClaimSpec::Iat(_) | ClaimSpec::IatOwned(_) => "iat",
-      ClaimSpec::Custom(k, _) | ClaimSpec::CustomOwned(k, _) | ClaimSpec::CustomKeyOnly(k) | ClaimSpec::Native(k, _) | ClaimSpec::Any(k, _) | ClaimSpec::SharedCounter(k, _) => k,
+      ClaimSpec::Custom(k, _) | ClaimSpec::CustomOwned(k, _) | ClaimSpec::CustomKeyOnly(k) | ClaimSpec::Native(k, _) | ClaimSpec::Any(k, _) | ClaimSpec::SharedCounter(k, _) | ClaimSpec::Shaped(k, _) => k,
+      ClaimSpec::Panicking(k) => k,
       ClaimSpec::DefaultOf(i) => DEFAULT_KEYS[*i as usize % 7],
     }
   }
   /// the JSON value this claim must contribute under `key()`
+  /// what a PARSER given this spec as an expected claim demands of payload[key]: the member of the claim's serialised form
+  /// that carries the claim's own key (null when there is none - such an expectation cannot be met)
+  pub fn demanded(&self) -> Value {
+    match self {
+      ClaimSpec::Shaped(k, v) => v.get(k.as_str()).cloned().unwrap_or(Value::Null),
+      other => other.expected(),
+    }
+  }
   pub fn expected(&self) -> Value {
     match self {
       ClaimSpec::Iss(s)
@@ -860,6 +875,12 @@ impl ClaimSpec {
       // the documented defaults: empty text, or the placeholder instant for the time claims
       ClaimSpec::DefaultOf(i) => Value::String(if *i % 7 >= 4 { "2019-01-01T00:00:00+00:00".to_string() } else { String::new() }),
       ClaimSpec::SharedCounter(_, n) => serde_json::json!(*n),
+      // what a builder makes of it: a one-member object named like the key is unwrapped, anything else is the value
+      ClaimSpec::Panicking(_) => Value::Null,
+      ClaimSpec::Shaped(k, v) => match v.as_object() {
+        Some(o) if o.len() == 1 && o.contains_key(k) => o[k].clone(),
+        _ => v.clone(),
+      },
     }
   }
 }
@@ -903,6 +924,10 @@ fn validator_rejects(k: &str, _v: &Value) -> Result<(), PasetoClaimError> {
 pub const VALIDATOR_PANICS_TEXT: &ValidatorFn = &validator_panics_with_text;
 pub const VALIDATOR_PANICS_VALUE: &ValidatorFn = &validator_panics_with_a_value;
 pub const VALIDATOR_REJECTS: &ValidatorFn = &validator_rejects;
+fn validator_accepts(_k: &str, _v: &Value) -> Result<(), PasetoClaimError> {
+  Ok(())
+}
+pub const VALIDATOR_ACCEPTS: &ValidatorFn = &validator_accepts;
 
 /// a claim value whose `Serialize` impl panics part-way
 pub struct PanickingValue;
@@ -912,6 +937,19 @@ impl Serialize for PanickingValue {
     let mut m = s.serialize_map(Some(2))?;
     m.serialize_entry("first", &1)?;
     panic!("harness claim: Serialize panics part-way (an application bug)")
+  }
+}
+pub struct PanickingKeyed {
+  pub key: String,
+}
+impl PasetoClaim for PanickingKeyed {
+  fn get_key(&self) -> &str {
+    &self.key
+  }
+}
+impl Serialize for PanickingKeyed {
+  fn serialize<S: serde::Serializer>(&self, s: S) -> Result<S::Ok, S::Error> {
+    PanickingValue.serialize(s)
   }
 }
 pub struct PanickingClaim;
@@ -1000,6 +1038,22 @@ impl Serialize for AnyClaim {
     let mut m = s.serialize_map(Some(1))?;
     m.serialize_entry(&self.key, &self.value)?;
     m.end()
+  }
+}
+
+#[derive(Clone, Debug)]
+pub struct ShapedClaim {
+  pub key: String,
+  pub value: Value,
+}
+impl PasetoClaim for ShapedClaim {
+  fn get_key(&self) -> &str {
+    &self.key
+  }
+}
+impl Serialize for ShapedClaim {
+  fn serialize<S: serde::Serializer>(&self, s: S) -> Result<S::Ok, S::Error> {
+    self.value.serialize(s)
   }
 }
 
@@ -1130,6 +1184,16 @@ macro_rules! with_claim {
       },
       ClaimSpec::Any(k, v) => {
         let $c = AnyClaim { key: k.clone(), value: v.clone() };
+        $body;
+        Ok(())
+      }
+      ClaimSpec::Shaped(k, v) => {
+        let $c = ShapedClaim { key: k.clone(), value: v.clone() };
+        $body;
+        Ok(())
+      }
+      ClaimSpec::Panicking(k) => {
+        let $c = PanickingKeyed { key: k.clone() };
         $body;
         Ok(())
       }
@@ -1288,6 +1352,11 @@ pub trait Parser<'a> {
   fn validate(&mut self, c: &'a ClaimSpec, f: &'static ValidatorFn) -> Result<(), LibErr>;
   /// `GenericParser::extend_check_claims` with caller-defined claims; false for the batteries-included parser
   fn extend_checks(&mut self, entries: &[(String, Value)]) -> bool;
+  /// `GenericParser::extend_check_claims` where the boxed claim under map key k serialises to the given value VERBATIM
+  /// (its own member name may differ from k, or be missing); false for the batteries-included parser
+  fn extend_checks_verbatim(&mut self, _entries: &[(String, Value)]) -> bool {
+    false
+  }
   /// `GenericParser::extend_validation_claims`; false for the batteries-included parser
   fn extend_validators(&mut self, entries: &[(String, &'static ValidatorFn)]) -> bool;
   fn parse(&mut self, token: &'a str, keys: &'a LibKeys<'a>) -> Result<Value, LibErr>;
@@ -1319,6 +1388,14 @@ macro_rules! impl_parsers {
         let mut m: std::collections::HashMap<String, Box<dyn erased_serde::Serialize + 'a>> = std::collections::HashMap::new();
         for (k, v) in entries {
           m.insert(k.clone(), Box::new(AnyClaim { key: k.clone(), value: v.clone() }));
+        }
+        self.0.extend_check_claims(m);
+        true
+      }
+      fn extend_checks_verbatim(&mut self, entries: &[(String, Value)]) -> bool {
+        let mut m: std::collections::HashMap<String, Box<dyn erased_serde::Serialize + 'a>> = std::collections::HashMap::new();
+        for (k, v) in entries {
+          m.insert(k.clone(), Box::new(ShapedClaim { key: k.clone(), value: v.clone() }));
         }
         self.0.extend_check_claims(m);
         true
